@@ -450,6 +450,8 @@ class C05(PropOracle):
             return
         if w.data.get("faulty") or (o.cluster or {}).get("is_canceled"):
             return
+        if w.scen.get("refuse_scripts") and o.epoch == 0:
+            return  # the scenario scripts a refused batch in the first run: jobs are legitimately missing
         names = {j["name"] for j in w.scen["jobs"]}
         got = {r["name"] for r in res.get("results", [])}
         if got != names:
@@ -589,6 +591,8 @@ class C07(PropOracle):
         jobs = d["jobs"]
         by = {j["name"]: j for j in w.scen["jobs"]}
         groups = {g["name"]: g for g in w.scen["groups"]}
+        if getattr(w, "obs", None) is not None and w.obs.epoch >= 1 and w.scen.get("resubmit_groups"):
+            groups = {g["name"]: g for g in w.scen["resubmit_groups"]}  # resubmit-jobs -s <file>
         if not jobs:
             self.v(w, f"batch {label} is empty", "empty-batch")
             return
@@ -982,7 +986,8 @@ class C13(PropOracle):
                      successful="--successful" in argv)
         c = read_json(w.rootp + "cluster_config.json") or {}
         s = read_json(w.rootp + "job_status.json") or {}
-        rec = dict(vp=vp.name, host=vp.host, flags=flags, complete=bool(c.get("is_complete")), cluster=c, status=s,
+        idle = not any(v.status == "ready" and v is not vp and v.pending is not None and v.pending.kind != "start" for v in w.vprocs)
+        rec = dict(vp=vp.name, host=vp.host, flags=flags, complete=bool(c.get("is_complete")), cluster=c, status=s, idle=idle,
                    rows=full_rows(w), allrows=disk_rows(w), launch0=len(w.obs.launch_log), others_ran=False,
                    sbatch0=len(w.obs.sbatch_log), lock_before=os.path.exists(w.rootp + "cluster_config.json.lock"))
         if rec["complete"]:
@@ -1031,6 +1036,9 @@ class C13(PropOracle):
                 c = read_json(w.rootp + "cluster_config.json") or {}
                 if c.get("is_complete") and full_rows(w) == a["rows"]:
                     a["aborted"] = True  # gave up before changing anything (e.g. somebody else is submitter)
+                    if a["idle"]:
+                        self.v(w, f"resubmit-jobs failed with {a['code']} on a complete submission on which nothing else was running "
+                                  f"(submitter on disk: {a['cluster'].get('submitter')!r})", "resubmit-failed-on-idle-complete")
 
     def _check_refusal(self, w, vp, a):
         if a["code"] != 1:
@@ -1490,3 +1498,51 @@ class C10S(PropOracle):
 
 
 ORACLES["C10S"] = C10S
+
+
+class C03R(PropOracle):
+    """After a resubmission of everything that did not succeed (flags failed+missing, reruns succeed) the
+    completed results again hold exactly one successful entry per job; reruns happen once, in dependency order."""
+
+    prop = "C03"
+
+    def on_launch(self, w, vp, d):
+        o = w.obs
+        if o.epoch >= 1 and o.launch.get(d["job"], 0) > 1:
+            self.v(w, f"job {d['job']} started {o.launch[d['job']]} times in one resubmission", "rerun-twice")
+
+    def on_end(self, w, vp, d):
+        o = w.obs
+        c = o.cluster or {}
+        if w.data.get("faulty"):
+            return
+        if o.epoch < 1:
+            if any(r for r in (read_json(w.rootp + "results.json") or {}).get("results", []) if r["return_code"] != 0):
+                self.v(w, "the resubmission never started although jobs failed", "resubmission-missing")
+            return
+        if not c.get("is_complete"):
+            self.v(w, f"resubmission did not complete (submitter={c.get('submitter')})", "resubmission-incomplete")
+            return
+        res = read_json(w.rootp + "results.json") or {}
+        got = {}
+        for r in res.get("results", []):
+            got.setdefault(r["name"], []).append(classify(r["return_code"], r["status"]))
+        for j in w.scen["jobs"]:
+            n = j["name"]
+            if got.get(n) != ["successful"]:
+                self.v(w, f"after the resubmission job {n} has entries {got.get(n)} (missing_jobs={res.get('missing_jobs')}), expected one successful entry",
+                       "resubmission-result")
+        summ = res.get("results_summary", {})
+        if summ.get("num_successful") != len(w.scen["jobs"]) or summ.get("num_failed") or summ.get("num_canceled") or summ.get("num_missing"):
+            self.v(w, f"results_summary after the resubmission: {summ} for {len(w.scen['jobs'])} successful jobs", "resubmission-tallies")
+
+
+class C04R(C03R):
+    prop = "C04"
+
+
+class C20R(C03R):
+    prop = "C20"
+
+
+ORACLES.update({c.__name__: c for c in (C03R, C04R, C20R)})
